@@ -20,6 +20,14 @@
 //
 // output: cap=<n> | S <t.q=res ...> | B <ids:outcome ...> | H <ids ...> | L <ids>
 //
+//	gc <n> <maxBatch>   n goroutines make the FIRST sends to a destination at the same moment (the
+//	  coalescer-creation mutex is held until all of them are inside getCoalescer); then every goroutine
+//	  sends a second message.  Reported: the number of distinct coalescers n racing getCoalescer calls
+//	  return (must be 1), the largest number of flushes in flight at once at the fake remote node (must
+//	  be 1: single writer), and the batches in the order the remote node completed them (newest
+//	  in-flight batch released first, so that a second writer shows as a reordering).
+//	output: writers=<k> inflight=<m> | B <ids:+ ...>
+//
 //	fq <size> op...    the failure fan-out of actor/remote_server.go on a real, started actor system:
 //	  e<n>  enqueueCoalescedFailure with a failed batch of n messages (ids count up from 0)
 //	  d / u shuttingDown := true / false
@@ -424,10 +432,112 @@ func handleFQ(f []string) string {
 	return fmt.Sprintf("cap=%d q=%d dead=%s", capv, q, strings.Join(dead, ","))
 }
 
+const gcHold = 40 * time.Millisecond
+
+func handleGC(f []string) string {
+	if srvError != "" {
+		return "server-error " + srvError
+	}
+	if len(f) != 3 {
+		return "bad-case"
+	}
+	n, err1 := strconv.Atoi(f[1])
+	mb, err2 := strconv.Atoi(f[2])
+	if err1 != nil || err2 != nil || n < 1 || n > 8 || mb < 1 {
+		return "bad-case"
+	}
+	if 4*mb < 2*n {
+		return "bad-case" // all 2n messages must fit the channel so that no send blocks
+	}
+	// part 1: structure. n racing getCoalescer calls on a fresh client.
+	cs0 := &caseState{entered: make(chan *entered, 64)}
+	cur.Store(cs0)
+	clA := remoteclient.NewClient(remoteclient.WithSendCoalescing(mb))
+	writers, _ := remoteclient.VerifRaceGetCoalescer(clA, srvHost, srvPort, n, func() { time.Sleep(gcHold) })
+	clA.Close()
+
+	// part 2: behaviour through RemoteTell.
+	cs := &caseState{entered: make(chan *entered, 64)}
+	cur.Store(cs)
+	cl := remoteclient.NewClient(remoteclient.WithSendCoalescing(mb), remoteclient.WithCoalescingErrorHandler(
+		func(string, []*internalpb.RemoteMessage, error) {}))
+	to := address.New("target", "sys", srvHost, srvPort)
+	send := func(t, q int) error {
+		from := address.New(fmt.Sprintf("m%d.%d", t, q), "sys", srvHost, srvPort)
+		return cl.RemoteTell(context.Background(), from, to, durationpb.New(time.Duration(t)))
+	}
+	unlock := remoteclient.VerifHoldCoalescerLock(cl)
+	errs := make(chan error, n)
+	for t := 0; t < n; t++ {
+		go func(t int) { errs <- send(t, 0) }(t)
+	}
+	time.Sleep(gcHold)
+	unlock()
+	for t := 0; t < n; t++ {
+		if err := <-errs; err != nil {
+			cl.Close()
+			return "HARNESS-FAIL first send: " + vlib.Canon(err.Error())
+		}
+	}
+	for t := 0; t < n; t++ {
+		if err := send(t, 1); err != nil {
+			cl.Close()
+			return "HARNESS-FAIL second send: " + vlib.Canon(err.Error())
+		}
+	}
+	var inflight []*entered
+	var batches []string
+	maxIn, delivered, stall := 0, 0, false
+	collect := func(d time.Duration) {
+		to := time.After(d)
+		for {
+			select {
+			case e := <-cs.entered:
+				inflight = append(inflight, e)
+				if len(inflight) > maxIn {
+					maxIn = len(inflight)
+				}
+			case <-to:
+				return
+			}
+		}
+	}
+	deadline := time.Now().Add(wait)
+	for delivered < 2*n && time.Now().Before(deadline) {
+		// give a second writer, if there is one, the time to show up before anything is released
+		collect(60 * time.Millisecond)
+		if len(inflight) == 0 {
+			continue
+		}
+		e := inflight[len(inflight)-1] // newest first
+		inflight = inflight[:len(inflight)-1]
+		if time.Since(e.at) > 3*time.Second {
+			stall = true
+		}
+		batches = append(batches, e.ids+":+")
+		delivered += strings.Count(e.ids, ",") + 1
+		e.gate <- '+'
+	}
+	for _, e := range inflight {
+		e.gate <- '+'
+	}
+	cl.Close()
+	if stall {
+		return "STALL"
+	}
+	if delivered < 2*n {
+		return fmt.Sprintf("HARNESS-FAIL only %d of %d messages reached the remote node", delivered, 2*n)
+	}
+	return fmt.Sprintf("writers=%d inflight=%d | B %s", writers, maxIn, strings.Join(batches, " "))
+}
+
 func handle(line string) string {
 	f := vlib.Fields(line)
 	if len(f) >= 2 && f[0] == "fq" {
 		return handleFQ(f)
+	}
+	if len(f) >= 1 && f[0] == "gc" {
+		return handleGC(f)
 	}
 	if len(f) < 3 || f[0] != "co" {
 		return "bad-case"
